@@ -38,11 +38,13 @@ def gen_ops(tier, rng):
                     for req in subsets(n, n):
                         add("default", rng.choice(OPTSETS), d, p, rng.choice([1, 10, 64, 100]), mode, E, req, rng.choice(["nil", "empty", "cap"]), "exh-" + mode)
     # seeded larger cases
-    n = 500 if tier == "quick" else 20000
+    n = 500 if tier == "quick" else 8000
     for _ in range(n):
         fam = rng.choice(MDS_FAMS + ["default"])
         d = rng.choice([rng.randint(1, 12), rng.randint(1, 40), rng.randint(1, 200)])
         p = rng.randint(1, min(40, 256 - d))
+        if fam == "jerasure" and d * d * (d + p) > 1_500_000:
+            fam = "cauchy"      # the model's Jerasure builder costs O(d^2 * total) matrix rebuilds
         k = rng.randint(0, p + 2)
         E = sorted(rng.sample(range(d + p), min(k, d + p)))
         size = rng.choice(SIZES_SMALL + SIZES_SMALL + SIZES_MID)
